@@ -9,6 +9,11 @@ x every assignment of the hole variables over a pool of 16 values (ints incl.
 0, strings incl. "", a symbol, keywords incl. the false empty keyword, lists,
 None, a tuple, a dict, a single-use generator, models that themselves look
 like unquote forms, a bracket string model).
+Plus the "operator names as data" family (<= n_opnames nodes): the symbols
+unquote / unquote-splice / quasiquote as plain atoms (first element of a
+List/Tuple/Set/Dict, or a non-head element: ordinary symbols there), and
+holes / wrappers spelled `unquote_splice` (the same symbol as
+unquote-splice).
 
 Oracle: mc/ref/pr_qq.py -- the textbook quasiquote (level-0 unquote -> the
 value; level-0 unquote-splice -> the elements of (or value []); deeper levels
@@ -100,8 +105,8 @@ def shape_of(tspec):
     feats = set()
 
     def go(t, parent, lvl):
-        if t[0] == "Expression" and t[1] and t[1][0][0] == "Symbol" and t[1][0][1] in ("unquote", "unquote-splice", "quasiquote"):
-            op = t[1][0][1]
+        if t[0] == "Expression" and len(t[1]) == 2 and t[1][0][0] == "Symbol" and Q.canon_op(t[1][0][1]) in Q.OPS:
+            op = Q.canon_op(t[1][0][1])
             if op == "quasiquote":
                 feats.add("qq@%d" % lvl)
                 nl = lvl + 1
@@ -124,12 +129,12 @@ def check_case(acc, tspec, tmodel, names, code=None):
     case = {"template": tspec, "binding": list(names)}
     acc.states += 1
     acc.transitions += P.size(tspec)
-    nontriv = bool(names) or any(s[0] == "Symbol" and s[1] in ("quasiquote", "unquote", "unquote-splice") for s in P.walk(tspec))
+    nontriv = bool(names) or any(s[0] == "Symbol" and Q.canon_op(s[1]) in Q.OPS for s in P.walk(tspec))
     if nontriv:
         acc.nontrivial += 1
     for nm in names:
         acc.count("bound:" + nm)
-    top_splice = (tspec[0] == "Expression" and len(tspec[1]) == 2 and tspec[1][0] == ["Symbol", "unquote-splice"])
+    top_splice = (tspec[0] == "Expression" and len(tspec[1]) == 2 and tspec[1][0][0] == "Symbol" and Q.canon_op(tspec[1][0][1]) == "unquote-splice")
     # reference
     try:
         if top_splice:
